@@ -98,8 +98,11 @@ CRet(c, done) ==
 Flushing(c, i) == \E f \in CIds : c.fl[f] = i
 CEnd(c) ==
   IF c.fault THEN c
-  ELSE IF \E i \in CIds : c.req[i].kind = "req" /\ i \notin c.expdup /\ i \in c.exited
-                          /\ ~Flushing(c, i) /\ c.nrep[i] # 1 THEN Flag(c, "request-unanswered")
+  ELSE LET U == {i \in CIds : c.req[i].kind = "req" /\ i \notin c.expdup /\ i \in c.exited
+                                /\ ~Flushing(c, i) /\ c.nrep[i] # 1} IN
+  IF \E i \in U : \E v \in c.noreply : v # i /\ c.req[v].tag = c.req[i].tag
+       THEN Flag(c, "request-on-reused-tag-unanswered")   \* C07: the tag freed by a flush is reused and its new user gets no reply
+  ELSE IF U # {} THEN Flag(c, "request-unanswered")
   ELSE IF \E i \in CIds : c.req[i].kind = "flush" /\ i \notin c.expdup /\ c.nrep[i] # 1 THEN Flag(c, "flush-unanswered")
   ELSE IF c.expdup # c.dupans THEN Flag(c, "duplicate-unanswered")
   ELSE c
